@@ -211,7 +211,30 @@ class CallMixin:
         return self.bind(self.ev(node.func, p), k)
 
     def star_call(self, node, p):
-        raise Unsupported(f"*args/**kwargs call at L{node.lineno}")
+        """f(a, *args, **kwargs) where args is a tuple of known length and kwargs is empty."""
+        def k(q, f):
+            exprs = [(x.value if isinstance(x, ast.Starred) else x, isinstance(x, ast.Starred)) for x in node.args]
+            kws = [kw for kw in node.keywords]
+
+            def k2(q2, vs):
+                args = []
+                for (e, starred), v in zip(exprs, vs[:len(exprs)]):
+                    if starred:
+                        if not isinstance(v, VTup):
+                            raise Unsupported(f"*args of unknown length at L{node.lineno}")
+                        args.extend(v.items)
+                    else:
+                        args.append(v)
+                kwargs = {}
+                for kw, v in zip(kws, vs[len(exprs):]):
+                    if kw.arg is None:
+                        if not (isinstance(v, VOpaque) and v.what == "kwargs"):
+                            raise Unsupported(f"**kwargs with entries at L{node.lineno}")
+                    else:
+                        kwargs[kw.arg] = v
+                return self.call_value(q2, f, args, kwargs, node)
+            return self.bind(self.ev_list([e for e, _ in exprs] + [kw.value for kw in kws], q), k2)
+        return self.bind(self.ev(node.func, p), k)
 
     def super_call(self, node, p):
         name = node.func.attr
@@ -395,6 +418,9 @@ class CallMixin:
         fn.node = fnode
         parent = cf.fn
         if parent is not None:
+            fn.cover_fqn = parent.fqn if parent.mod is not None else getattr(parent, "cover_fqn", None)
+            fn.ghost = getattr(parent, "ghost", None)
+            fn._ghost_hits = getattr(parent, "_ghost_hits", set())
             fn.loops = parent.loops
             fn._loop_ids = self.loop_ordinals(parent) if (parent.mod or getattr(parent, "node", None)) else {}
             fn.local_types = parent.local_types
